@@ -1,7 +1,7 @@
 (* C05 — LLO lifecycle is monotone; retirement freezes state; specimen marking is exact.
    All statements are about ANY previous outcome and ANY observation list (a fortiori any history). *)
 From stdpp Require Import gmap.
-From DS Require Import Base Decimal StreamValue Aggregators Outcome OutcomeProofs StepTheorems NvHistory.
+From DS Require Import Base Decimal StreamValue Aggregators Outcome OutcomeProofs StepTheorems HistoryProofs HistoryLifts NvHistory.
 Open Scope Z_scope.
 
 Theorem C05_initial_stage : forall h cf seq prev aos next,
@@ -25,6 +25,19 @@ Theorem C05_retired_freezes : forall h cf seq prev aos next,
   (forall c v, o_va prev !! c = Some v -> o_va next !! c = Some (trunc_va (c_pver cf) v)).
 Proof. exact retired_freezes. Qed.
 Print Assumptions C05_retired_freezes.
+
+(* over ANY history (linked successful rounds, arbitrary observations in each): stages only move forward, and once
+   retired every later round is retired with the same channel set *)
+Theorem C05_stage_monotone_history : forall h cf (es : list event) (e0 : event),
+  Forall (valid_event h cf) (e0 :: es) -> linked (e0 :: es) -> known_stage (o_stage (ev_prev e0)) ->
+  forall e, e ∈ (e0 :: es) -> stage_le (o_stage (ev_prev e0)) (o_stage (ev_next e)) /\ known_stage (o_stage (ev_next e)).
+Proof. exact stage_monotone_history. Qed.
+Print Assumptions C05_stage_monotone_history.
+Theorem C05_retired_forever : forall h cf (es : list event) (e0 : event),
+  Forall (valid_event h cf) (e0 :: es) -> linked (e0 :: es) -> o_stage (ev_prev e0) = Retired ->
+  forall e, e ∈ (e0 :: es) -> o_stage (ev_next e) = Retired /\ o_defs (ev_next e) = o_defs (ev_prev e0).
+Proof. exact retired_forever. Qed.
+Print Assumptions C05_retired_forever.
 
 (* every round of a retired instance yields exactly the retirement report carrying its validity starts *)
 Theorem C05_retired_reports : forall cf seq o,
